@@ -62,3 +62,81 @@ func probeC04() *JobRes {
 	out.Samples = []interface{}{"probes: mkdir a,b,a/x; RENAME a/x -> b/x  |  mkdir p,p/q; RENAME p -> p/q/r"}
 	return out
 }
+
+// probeFormatCrash: a crash inside the very first MakeNfs (mkfs writes the
+// root inode and the bitmaps directly, without the journal and without a
+// barrier in between).  Every prefix cut of the format trace is recovered; the
+// result must be an empty, usable file system.
+func probeFormatCrash() *JobRes {
+	out := &JobRes{Counters: Counter{}}
+	mon.Off()
+	const size = 4000
+	d := NewCDisk(size)
+	base := d.StartRecording()
+	srv := StartSrv(d, SrvOpts{Unstable: true})
+	srv.Flush()
+	trace := d.StopRecording()
+	srv.Shutdown()
+	it := NewCutIter(size, base, trace)
+	bad := ""
+	nbad := 0
+	n := 0
+	for {
+		e, ok := it.Step()
+		if !ok {
+			break
+		}
+		if e.Kind != EvWrite {
+			continue
+		}
+		n++
+		imgs := []map[uint64][]byte{it.PrefixImage()}
+		lrng := NewRng(uint64(n) + 77)
+		for k := 0; k < 3 && it.WindowSize() > 0; k++ {
+			li, _ := it.LossyImage(lrng)
+			imgs = append(imgs, li)
+		}
+		for _, img := range imgs {
+			msg := func() (m string) {
+				defer func() {
+					if r := recover(); r != nil {
+						m = fmt.Sprintf("panic: %v", r)
+					}
+				}()
+				s2 := StartSrv(NewCDiskFrom(size, img), SrvOpts{Unstable: true})
+				defer s2.Shutdown()
+				c := doOp(s2.API, &Op{K: OpCreate, H: s2.Root, Name: "x"})
+				if c.Stat != stOK {
+					return fmt.Sprintf("CREATE on the recovered file system fails with status %d", c.Stat)
+				}
+				w := doOp(s2.API, &Op{K: OpWrite, H: c.FH, Count: 5000, DataLen: 5000, Data: make([]byte, 5000), Stable: 2})
+				if w.Stat != stOK {
+					return fmt.Sprintf("WRITE on the recovered file system fails with status %d", w.Stat)
+				}
+				fr := s2.Fsck(FsckOpts{CheckCaches: true})
+				if len(fr.Errs)+len(fr.Leaks) > 0 {
+					return fmt.Sprintf("fsck: %v %v", fr.Errs, fr.Leaks)
+				}
+				return ""
+			}()
+			out.Evals++
+			if msg != "" {
+				nbad++
+				if bad == "" {
+					bad = fmt.Sprintf("cut after write #%d (block %d) of the initial format: %s", n, e.Addr, msg)
+				}
+			}
+		}
+	}
+	out.Counters["format_trace_writes"] = n
+	out.Counters["format_cuts_that_leave_a_broken_file_system"] = nbad
+	out.Distinct = append(out.Distinct, "probe:format-crash", fmt.Sprintf("format-cuts-%d", n))
+	if bad != "" {
+		if knownOpen("C01", "crash-during-initial-format") {
+			out.Known = append(out.Known, "crash-during-initial-format")
+		} else {
+			out.Viol = append(out.Viol, Violation{Class: "crash", Msg: bad})
+		}
+	}
+	return out
+}
